@@ -5,6 +5,7 @@ import (
 	"flag"
 	"fmt"
 	"os"
+	"strings"
 	"time"
 
 	sim "verif/sim"
@@ -86,6 +87,35 @@ func main() {
 		for k, v := range counts {
 			fmt.Printf("  %5d  %s\n", v, k)
 		}
+	case "tracehash":
+		fs := flag.NewFlagSet("tracehash", flag.ExitOnError)
+		seed := fs.Int64("seed", 1, "")
+		profile := fs.String("profile", "general", "")
+		prop := fs.String("prop", "", "")
+		_ = fs.Parse(os.Args[2:])
+		opts := sim.ExecOpts{}
+		if *prop != "" {
+			opts = sim.SpecFor(*prop, "quick").Opts
+			opts.BankFailEnum = false
+		}
+		res := sim.Execute(sim.Generate(*seed, *profile), opts)
+		if res.HarnessErr != "" {
+			fmt.Println("HARNESS", res.HarnessErr)
+			os.Exit(2)
+		}
+		fmt.Printf("%s %d\n", res.TraceHash, len(res.Violations))
+	case "selftest":
+		fs := flag.NewFlagSet("selftest", flag.ExitOnError)
+		seeds := fs.Int("seeds", 30, "")
+		base := fs.Int64("seed", 1, "")
+		_ = fs.Parse(os.Args[2:])
+		self, _ := os.Executable()
+		r := sim.SelfTest(self, *base, *seeds, []string{"general", "book", "fixed", "replicas", "genesis", "hooks"}, []int{1, 4, 16}, 2, "")
+		b, _ := json.Marshal(r)
+		fmt.Println(string(b))
+		if r.Mismatches > 0 {
+			os.Exit(1)
+		}
 	case "gen":
 		fs := flag.NewFlagSet("gen", flag.ExitOnError)
 		seed := fs.Int64("seed", 1, "")
@@ -96,6 +126,20 @@ func main() {
 	case "replay":
 		if len(os.Args) < 3 {
 			usage()
+		}
+		if strings.HasSuffix(os.Args[2], ".cmd.json") {
+			ok, out, err := sim.ReplayCmd(os.Args[2])
+			if err != nil {
+				fmt.Println(err)
+				os.Exit(2)
+			}
+			fmt.Println(out)
+			if ok {
+				fmt.Printf("VIOLATION replay=%s\n", os.Args[2])
+				os.Exit(1)
+			}
+			fmt.Println("recorded violation did not reproduce")
+			return
 		}
 		ok, res, rf, err := sim.Replay(os.Args[2])
 		if err != nil {
